@@ -3,6 +3,7 @@ From Coq Require Import NArith List.
 From Verif Require Import Base.Word Model.PoolMap Model.Geometry Model.PoolSpec Model.Bitmap Model.Epoch
   Model.FreeList
   Proofs.GeometryProofs Proofs.BitmapProofs Proofs.EpochProofs Proofs.FreeListProofs.
+From Verif Require Model.DistAlloc Proofs.DistAllocProofs.   (* not imported: its epoch model reuses names *)
 Import ListNotations.
 Local Open Scope N_scope.
 
@@ -158,3 +159,28 @@ Example C05_freelist_nonvacuous :
   FreeListProofs.outp (frun [10; 11] [Alloc 1; Alloc 2]) (Alloc 3) = OErr 1 /\
   FreeListProofs.outp (frun [10; 11] [Alloc 1; Alloc 2; Release 1]) (Alloc 3) = OUnit 10.
 Proof. split; vm_compute; reflexivity. Qed.
+
+(* ---------- DistributedAllocator: failed persistence (Model/DistAlloc.v and the lemmas of
+   Proofs/DistAllocProofs.v are the C12 builder's; cited here for the C05 clause "a failed persistence
+   puts the address back into circulation", every state, both modes) ---------- *)
+(* a failed store Put during Allocate: the subscriber holds afterwards exactly what it held before
+   (a fresh subscriber nothing: the unit is back), and the store is unchanged *)
+Theorem C05_dist_failed_put_gives_back : forall s h mac,
+  DistAlloc.d_lookup (DistAlloc.dnext s (DistAlloc.DAlloc h mac true)) h = DistAlloc.d_lookup s h /\
+  DistAlloc.d_store (DistAlloc.dnext s (DistAlloc.DAlloc h mac true)) = DistAlloc.d_store s.
+Proof. exact DistAllocProofs.write_failure_keeps_alloc. Qed.
+Print Assumptions C05_dist_failed_put_gives_back.
+
+(* a failed store Delete during Release changes nothing: memory and store still agree *)
+Theorem C05_dist_failed_delete_changes_nothing : forall s h,
+  DistAlloc.dnext s (DistAlloc.DRelease h true) = s.
+Proof. exact DistAllocProofs.write_failure_keeps_release. Qed.
+Print Assumptions C05_dist_failed_delete_changes_nothing.
+
+(* session mode: memory and store agree after EVERY history with any failure pattern (guard
+   [hist_ok]: remote notifications are consistent), hence a reload restores exactly the live holders *)
+Theorem C05_dist_memory_store_agree_partial : forall c ops,
+  DistAlloc.c_lease c = false -> DistAllocProofs.geo_small (DistAlloc.c_geo c) ->
+  DistAllocProofs.hist_ok c ops = true -> DistAllocProofs.Agree (DistAlloc.drun c ops).
+Proof. exact DistAllocProofs.session_agree. Qed.
+Print Assumptions C05_dist_memory_store_agree_partial.
